@@ -100,6 +100,7 @@ type ContractDB struct {
 	Files    []string
 	Lemmas   []Lemma
 	ModSets  map[string][]*CExpr
+	GlobalInvs map[string][]Clause // package path -> invariants over package variables
 }
 
 type Lemma struct {
@@ -118,7 +119,7 @@ type ConstClaim struct {
 
 func NewContractDB() *ContractDB {
 	return &ContractDB{Funcs: map[string]*FuncContract{}, Monitors: map[string]*Monitor{}, Specs: map[string]*SpecFunc{},
-		Events: map[string]*EventDecl{}, TypeInvs: map[string]*TypeInv{}, ModSets: map[string][]*CExpr{}}
+		Events: map[string]*EventDecl{}, TypeInvs: map[string]*TypeInv{}, ModSets: map[string][]*CExpr{}, GlobalInvs: map[string][]Clause{}}
 }
 
 var labelRe = regexp.MustCompile(`^\[([^\]]+)\]\s*`)
@@ -283,6 +284,12 @@ func (db *ContractDB) LoadFile(path, pkgPath string, assumed bool) error {
 					ev.When = e
 				}
 				db.Events[ev.Name] = ev
+			case "globalinv":
+				c, err := mkClause(l, "globalinv", rest)
+				if err != nil {
+					return err
+				}
+				db.GlobalInvs[pkgPath] = append(db.GlobalInvs[pkgPath], c)
 			case "modset":
 				i := strings.Index(rest, "=")
 				if i < 0 {
